@@ -9,6 +9,9 @@
 #include <string.h>
 #include <sys/syscall.h>
 #include <sys/types.h>
+#include <sys/stat.h>
+#include <sys/socket.h>
+#include <sys/un.h>
 #include <sys/resource.h>
 #include <sys/wait.h>
 #include <time.h>
@@ -97,6 +100,42 @@ int main(int argc, char **argv) {
     long total = atol(argv[2]); char *m = malloc(total); if (!m) _exit(97);
     for (long i = 0; i < total; i += 4096) m[i] = 1;
     _exit(m[total / 2] == 1 ? 0 : 0);
+  } else if (!strcmp(c, "plant")) {
+    // plant KIND PATH [TARGET] ... (triples; TARGET "-" when unused); exit = number of failures
+    int fails = 0;
+    for (int i = 2; i + 2 < argc + 0 || i + 2 == argc; i += 3) {
+      const char *k = argv[i], *p = argv[i + 1], *tg = (i + 2 < argc) ? argv[i + 2] : "-";
+      int rc = 0;
+      if (!strcmp(k, "reg")) { int fd = open(p, O_CREAT | O_WRONLY | O_TRUNC, 0644); if (fd < 0) rc = -1; else { if (strcmp(tg, "-")) write(fd, tg, strlen(tg)); close(fd); } }
+      else if (!strcmp(k, "dir")) rc = mkdir(p, 0755);
+      else if (!strcmp(k, "fifo")) rc = mkfifo(p, 0666);
+      else if (!strcmp(k, "sym")) rc = symlink(tg, p);
+      else if (!strcmp(k, "hard")) rc = link(tg, p);
+      else if (!strcmp(k, "chmod")) rc = chmod(p, strtol(tg, NULL, 8));
+      else if (!strcmp(k, "sock")) {
+        int s = socket(AF_UNIX, SOCK_STREAM, 0); struct sockaddr_un a; memset(&a, 0, sizeof a); a.sun_family = AF_UNIX;
+        strncpy(a.sun_path, p, sizeof a.sun_path - 1); rc = bind(s, (struct sockaddr *)&a, sizeof a); close(s);
+      } else rc = -1;
+      if (rc != 0) fails++;
+    }
+    _exit(fails);
+  } else if (!strcmp(c, "kinds")) {
+    // lstat kind of each path, one JSON array on stdout
+    char buf[65536]; int n = 0; n += snprintf(buf + n, sizeof buf - n, "[");
+    for (int i = 2; i < argc; i++) {
+      struct stat st; char k[4200];
+      if (lstat(argv[i], &st) != 0) snprintf(k, sizeof k, "absent");
+      else if (S_ISREG(st.st_mode)) snprintf(k, sizeof k, "reg:%ld", (long)st.st_size);
+      else if (S_ISDIR(st.st_mode)) snprintf(k, sizeof k, "dir");
+      else if (S_ISFIFO(st.st_mode)) snprintf(k, sizeof k, "fifo");
+      else if (S_ISSOCK(st.st_mode)) snprintf(k, sizeof k, "sock");
+      else if (S_ISLNK(st.st_mode)) { char tg[4096]; ssize_t l = readlink(argv[i], tg, sizeof tg - 1); tg[l < 0 ? 0 : l] = 0; snprintf(k, sizeof k, "sym:%s", tg); }
+      else snprintf(k, sizeof k, "other");
+      n += snprintf(buf + n, sizeof buf - n, "%s\"%s\"", i > 2 ? "," : "", k);
+    }
+    n += snprintf(buf + n, sizeof buf - n, "]\n");
+    write(1, buf, n);
+    _exit(0);
   } else if (!strcmp(c, "hello")) {
     write(1, "hello\n", 6); _exit(0);
   }
